@@ -32,8 +32,21 @@ Cases ==
 \* cannot be honoured by any derive and is outside the property
 VisRank(v) == CASE v = "private" -> 0 [] v = "up1" -> 1 [] v = "up2" -> 2 [] v = "crate" -> 3 [] v = "public" -> 4
 Compilable(x) == Has(x.cfg, "iter") => VisRank(VisOf(PV(EntryOf(x.cfg, "iter"), "vis"), x.enumvis)) <= VisRank(x.enumvis)
+\* pairs of item features: the visibility / name given to ONE must not leak into the OTHER
+\* (e.g. iter(vis = "") together with range at its default visibility)
+PairCfg(f, pf, g, pg) == [attrs |-> <<<<IF pf = <<>> THEN E(f, "path", <<>>) ELSE E(f, "list", pf),
+                                        IF pg = <<>> THEN E(g, "path", <<>>) ELSE E(g, "list", pg)>>
+                                      \o (IF "range" \in {f, g} /\ "iter" \notin {f, g} THEN <<E("iter", "path", <<>>)>> ELSE <<>>)>>,
+                          varattr |-> NoVA]
+PairCases ==
+  {[enumvis |-> ev, cfg |-> PairCfg(f, <<P("vis", "str", v)>>, g, <<>>), gapless |-> gl] :
+     f \in ItemFeatures, g \in ItemFeatures, v \in VisValues, ev \in {"public", "crate"}, gl \in BOOLEAN}
+  \cup {[enumvis |-> "public", cfg |-> PairCfg(f, <<P("vis", "str", v), P("name", "str", "renamed_" \o f)>>, g, <<P("vis", "str", w)>>), gapless |-> gl] :
+     f \in {"iter", "names", "MIN", "next"}, g \in {"range", "iter", "MAX", "next_back", "as_str"}, v \in VisValues, w \in VisValues, gl \in BOOLEAN}
+AllCases == Cases \cup {x \in PairCases : \A p, q \in Entries(x.cfg) : p # q => EntryAt(x.cfg, p).f # EntryAt(x.cfg, q).f}
+
 VARIABLE c
-Init == c \in {x \in Cases : Legal(x.cfg, x.gapless) /\ Compilable(x)}
+Init == c \in {x \in AllCases : Legal(x.cfg, x.gapless) /\ Compilable(x)}
 Stutter == UNCHANGED c
 Spec == Init /\ [][Stutter]_c
 \* the expected surface never asks for the same name twice and every helper-free observation is accepted
